@@ -45,9 +45,20 @@ def make_fun(obj):
                 v = v + k * (x[1] - x[0] ** 2) ** 2
             return v
         return f
+    if obj["type"] == "illc":
+        A = jnp.asarray(illc_matrix(obj))
+        return lambda x: 0.5 * x @ A @ x + 0.01 * jnp.sum(x ** 4) - 0.1 * jnp.sum(jnp.cos(x))
     # trigonometric (direct oracle only): sum cos(x_i) + A cos(w x_i + ph)
     A, w, ph = obj["A"], obj["w"], obj["ph"]
     return lambda x: jnp.sum(jnp.cos(x) + A * jnp.cos(w * x + ph))
+
+
+def illc_matrix(obj):
+    """Q diag(logspace(lo, hi, n)) Q^T with a seeded orthogonal Q: ill-conditioned quadratic part."""
+    rng = np.random.default_rng(int(obj["seed"]))
+    n = int(obj["n"])
+    Q, _ = np.linalg.qr(rng.normal(size=(n, n)))
+    return Q @ np.diag(np.logspace(obj["lo"], obj["hi"], n)) @ Q.T
 
 
 def np_fun(obj):
@@ -60,6 +71,9 @@ def np_fun(obj):
                 v = v + k * (x[1] - x[0] ** 2) ** 2
             return float(v)
         return f
+    if obj["type"] == "illc":
+        A = illc_matrix(obj)
+        return lambda x: float(0.5 * x @ A @ x + 0.01 * np.sum(x ** 4) - 0.1 * np.sum(np.cos(x)))
     A, w, ph = obj["A"], obj["w"], obj["ph"]
     return lambda x: float(np.sum(np.cos(x) + A * np.cos(w * x + ph)))
 
@@ -86,7 +100,8 @@ def run_impl(case, want_log=True):
     def hessp(p, t):
         return jvp(gf, (p,), (t,))[1]
 
-    log = {"trials": [], "cg": []}
+    log = {"trials": [], "cg": [], "strials": []}
+    big = len(case["x0"]) > 4
 
     def vg_logged(x):
         v, g = vg(x)
@@ -97,20 +112,30 @@ def run_impl(case, want_log=True):
         res = cgm._cg(mat, j, *a, **k)
         n = j.shape[0]
         H = np.array([np.asarray(mat(jnp.eye(n)[i]), float) for i in range(n)]).T
-        log["cg"].append({"H": H.tolist(), "g": np.asarray(j, float).tolist(), "x": np.asarray(res.x, float).tolist(), "info": int(res.info)})
+        log["cg"].append({"H": H.tolist(), "g": np.asarray(j, float).tolist(), "x": np.asarray(res.x, float).tolist(), "info": int(res.info),
+                          "nit": int(res.nit), "absdelta": None if k.get("absdelta") is None else float(k["absdelta"]),
+                          "resnorm": float(k["resnorm"])})
         return res
+
+    def vg_static_logged(x):
+        v, g = vg(x)
+        jax.debug.callback(lambda xx, vv: log["strials"].append((np.asarray(xx, float).tolist(), float(vv))), x, v, ordered=True)
+        return v, g
 
     kwargs = dict(maxiter=kw["maxiter"], miniter=kw["miniter"], absdelta=kw["absdelta"], xtol=kw["xtol"],
                   energy_reduction_factor=kw["erf"])
     out = {}
     try:
         r = opt._newton_cg(x0=x0, fun_and_grad=vg_logged, hessp=hessp, cg=cg_logged, **kwargs)
-        out["eager"] = {"raised": False, "x": np.asarray(r.x, float).tolist(), "status": int(r.status), "nit": int(r.nit), "fun": float(r.fun)}
+        out["eager"] = {"raised": False, "x": np.asarray(r.x, float).tolist(), "status": int(r.status), "nit": int(r.nit), "fun": float(r.fun),
+                        "nhev": int(r.nhev), "nfev": int(r.nfev)}
     except ValueError as e:
         out["eager"] = {"raised": True, "x": None, "status": -7, "nit": 0, "fun": 0.0, "error": str(e)[:80]}
     try:
-        r = opt._static_newton_cg(x0=x0, fun_and_grad=vg, hessp=hessp, **kwargs)
-        out["static"] = {"raised": False, "x": np.asarray(r.x, float).tolist(), "status": int(r.status), "nit": int(r.nit), "fun": float(r.fun)}
+        r = opt._static_newton_cg(x0=x0, fun_and_grad=vg_static_logged, hessp=hessp, **kwargs)
+        jax.effects_barrier()
+        out["static"] = {"raised": False, "x": np.asarray(r.x, float).tolist(), "status": int(r.status), "nit": int(r.nit), "fun": float(r.fun),
+                         "nhev": int(r.nhev), "nfev": int(r.nfev)}
     except Exception as e:  # conditional_raise surfaces as a runtime error of the callback
         out["static"] = {"raised": True, "x": None, "status": -7, "nit": 0, "fun": 0.0, "error": str(e)[:80]}
     if case.get("trust"):
@@ -183,6 +208,8 @@ def tie_free(case, obs):
         if abs(dn - xtol) <= 1e-6 * xtol:
             return False
         cur_x, cur_e = x, v
+    if n > 4:
+        return all(cg_margin(c) > 1e-6 for c in log["cg"])
     # CG calls: curvature signs along the exact trajectory must be clear
     for c in log["cg"]:
         H = [[Fr(v) for v in row] for row in c["H"]]
@@ -210,6 +237,75 @@ def tie_free(case, obs):
                 break       # converged to rounding level; later float iterations do not move the point
             d2 = float(row["gamma"])
     return True
+
+
+def cg_margin(c):
+    """Smallest relative distance from a tie over all decisions of one logged `_cg` call (NumPy float64 replay of
+    the loop with the kwargs the Newton minimiser passed: norm_ord 1, default miniter/maxiter, no failure
+    reporting).  Used for the larger systems, where the inner CG is stopped by its thresholds."""
+    H = np.array(c["H"], float)
+    j = np.array(c["g"], float)
+    n = len(j)
+    ad, rn = c["absdelta"], c["resnorm"]
+    miniter = min(6, 20 * n)
+    maxiter = max(min(200, 20 * n), miniter)
+    eps = 6.0 * np.finfo(float).eps
+    pos = np.zeros(n)
+    r = -j
+    d = r.copy()
+    energy = 0.0
+    gam = float(r @ r)
+    marg = 1.0
+    if gam == 0:
+        return marg
+
+    def rel(a, b):
+        return abs(a - b) / max(abs(a), abs(b), 1e-300)
+
+    hs = max(np.abs(H).max(), 1e-300)
+    for i in range(1, maxiter + 1):
+        q = H @ d
+        curv = float(d @ q)
+        marg = min(marg, abs(curv) / (hs * float(d @ d) + 1e-300) * 1e3)
+        if curv <= 0:
+            return marg
+        alpha = gam / curv
+        pos = pos - alpha * d
+        r = H @ pos - j if i % 20 == 0 else r - q * alpha
+        gamma = float(r @ r)
+        if gamma <= 6.0 * np.finfo(float).tiny:
+            return marg
+        nr = float(np.abs(r).sum())
+        if i >= miniter:
+            marg = min(marg, rel(nr, rn))
+            if nr < rn:
+                return marg
+        ne = float(((r - j) / 2) @ pos)
+        ed = energy - ne
+        marg = min(marg, (ed + eps * abs(ne)) / (abs(ne) + 1e-300) * 1e6) if ed + eps * abs(ne) > 0 else 0.0
+        if ed < -eps * abs(ne):
+            return marg
+        if ad is not None and i >= miniter:
+            marg = min(marg, rel(ed, ad))
+            if ed < ad:
+                return marg
+        energy = ne
+        d = d * max(0.0, gamma / gam) + r
+        gam = gamma
+    return marg
+
+
+def first_sequence(trials):
+    """Trial points of the first Newton iteration from a fun_and_grad log: entry 0 is the start."""
+    if not trials:
+        return []
+    e0 = trials[0][1]
+    out = []
+    for x, v in trials[1:10]:
+        out.append(x)
+        if v <= e0:
+            break
+    return out
 
 
 # --------------------------------------------------------------------------------------------------
@@ -252,7 +348,27 @@ def direct_failures(case, obs, tiefree):
             if e["status"] != s["status"] or e["nit"] != s["nit"]:
                 fails.append(("eager-vs-static", "eager (status %d, nit %d) vs compiled (status %d, nit %d)" % (e["status"], e["nit"], s["status"], s["nit"])))
             elif np.abs(np.array(e["x"]) - np.array(s["x"])).max() > 1e-8 * xs:
-                fails.append(("eager-vs-static", "results differ: eager %s compiled %s" % (e["x"], s["x"])))
+                fails.append(("eager-vs-static", "results differ: eager %s compiled %s" % (e["x"][:6], s["x"][:6])))
+            elif len(x0) > 4 and (e["nhev"] != s["nhev"] or e["nfev"] != s["nfev"]):
+                fails.append(("eager-vs-static", "eager (nhev %d, nfev %d) vs compiled (nhev %d, nfev %d)" % (e["nhev"], e["nfev"], s["nhev"], s["nfev"])))
+        # the sequence of trial points of the first iteration: same for both, step lengths 1, 1/2, .., 1/32 along the
+        # first direction, then 1, 1/2, 1/4 along a second one
+        if not e["raised"] and not s["raised"] and case["kw"]["maxiter"] >= 1:
+            te, ts = first_sequence(obs["log"]["trials"]), first_sequence(obs["log"].get("strials", []))
+            for name, t in (("eager", te), ("compiled", ts)):
+                pts = [np.array(p, float) - x0 for p in t]
+                bad = None
+                for k in range(1, min(len(pts), 6)):
+                    if np.abs(pts[k] - pts[0] * 0.5 ** k).max() > 1e-9 * max(1.0, np.abs(pts[0]).max()):
+                        bad = "trial %d is not the first trial step scaled by 1/%d" % (k + 1, 2 ** k)
+                for k in range(7, len(pts)):
+                    if np.abs(pts[k] - pts[6] * 0.5 ** (k - 6)).max() > 1e-9 * max(1.0, np.abs(pts[6]).max()):
+                        bad = "trial %d is not the reset step scaled by 1/%d" % (k + 1, 2 ** (k - 6))
+                if bad:
+                    fails.append(("trial-sequence", "%s line search: %s" % (name, bad)))
+            if len(te) != len(ts) or any(np.abs(np.array(a) - np.array(b)).max() > 1e-9 * max(1.0, np.abs(np.array(a)).max()) for a, b in zip(te, ts)):
+                fails.append(("trial-sequence", "eager and compiled line search evaluate different trial points in the first iteration: %d vs %d points, step factors %s vs %s"
+                              % (len(te), len(ts), step_factors(te, x0), step_factors(ts, x0))))
     # progress at negative curvature (first iteration, from the logged Hessian of the first CG call)
     cgl = obs["log"]["cg"]
     if cgl and case["kw"]["maxiter"] >= 1:
@@ -284,6 +400,14 @@ def direct_failures(case, obs, tiefree):
                         if np.abs(x1 - x0).max() > 0 and float((x1 - x0) @ (-g)) <= 0:
                             fails.append(("negcurv-progress", "%s: negative curvature along the gradient, no trial along -g lowers the energy, but the iterate moved along +g to %s" % (name, x1.tolist())))
     return fails
+
+
+def step_factors(seq, x0):
+    if not seq:
+        return []
+    d0 = np.array(seq[0], float) - x0
+    i = int(np.abs(d0).argmax())
+    return [round(float((np.array(p, float) - x0)[i] / d0[i]), 5) if d0[i] != 0 else None for p in seq]
 
 
 def first_iterate(case, obs, name):
@@ -348,7 +472,7 @@ def gen_cases(ctx, salt=17, ncase=None):
         cases.append({"obj": {"type": "poly", "a": a, "b": b, "c": c, "k": 0}, "x0": x0, "kw": kw, "trust": False})
     # separable 2-d objectives whose first acceptable trial is one of the three after the reset (selected with a
     # NumPy evaluation of the nine trial energies; selection only)
-    want = {6: 1, 7: 1, 8: 2} if ctx.quick else {6: 6, 7: 6, 8: 8}
+    want = {5: 2, 6: 1, 7: 1, 8: 2} if ctx.quick else {5: 8, 6: 6, 7: 6, 8: 8}
     got = {}
     for _ in range(20000):
         if all(got.get(k, 0) >= v for k, v in want.items()):
@@ -376,6 +500,15 @@ def gen_cases(ctx, salt=17, ncase=None):
             got[k] = got.get(k, 0) + 1
             kw = {"maxiter": 1, "miniter": 0, "absdelta": None, "xtol": 1e-5, "erf": 0.1}
             cases.append({"obj": {"type": "poly", "a": a, "b": b, "c": c, "k": 0}, "x0": x0, "kw": kw, "trust": False})
+    # ill-conditioned objectives in more than 6 dimensions, default options, >= 2 Newton iterations: the inner CG is
+    # stopped by its thresholds (energy criterion derived from the previous Newton step / residual norm); eager and
+    # compiled minimiser are compared on result, status, nit, nhev, nfev (no model run: too large for exact rationals)
+    for i in range(3 if ctx.quick else 14):
+        n = int(rng.choice([12, 16, 24, 40]))
+        obj = {"type": "illc", "n": n, "seed": int(rng.integers(0, 10 ** 6)), "lo": -2.0, "hi": 2.0}
+        x0 = [float(v) for v in np.round(rng.normal(size=n) * 2, 3)]
+        kw = {"maxiter": 2 + (i % 2), "miniter": 0, "absdelta": None, "xtol": 1e-5, "erf": 0.1}
+        cases.append({"obj": obj, "x0": x0, "kw": kw, "trust": False})
     return cases
 
 
@@ -411,6 +544,20 @@ def check_term(case, obs):
         C.cq(EPS), C.cq(TINY), C.cq(tolx), C.cq(tolf), obs_args(obs["eager"], n), obs_args(obs["static"], n))
 
 
+def trials_term(case, obs):
+    n = len(case["x0"])
+    ob, kw = case["obj"], case["kw"]
+    cf = "(mkncfg %s %s %s %s %s None)" % (C.cnat(kw["miniter"]), C.cnat(kw["maxiter"]), C.copt(kw["erf"], C.cq),
+                                           C.copt(kw["absdelta"], C.cq), C.cq(Fr(kw["xtol"]) * n))
+    te, ts = first_sequence(obs["log"]["trials"]), first_sequence(obs["log"].get("strials", []))
+    xs = [abs(v) for t in te + ts for v in t if math.isfinite(v)]
+    tolx = 1e-8 * max([1.0] + xs)
+    ql = lambda seq: C.clist([qlist(p) for p in seq])
+    return "chk_trials %s %s %s %s %s %s %s %s %s %s %s %s" % (
+        C.cnat(n), qlist(ob["a"]), qlist(ob["b"]), qlist(ob["c"]), C.cq(ob["k"]), qlist(case["x0"]), cf,
+        C.cq(EPS), C.cq(TINY), C.cq(tolx), ql(te), ql(ts))
+
+
 def strip(case):
     return {"obj": case["obj"], "x0": case["x0"], "kw": case["kw"], "trust": bool(case.get("trust"))}
 
@@ -440,9 +587,14 @@ class C17(C.Check):
         self.tf = [tie_free(c, o) for c, o in zip(self.cases, self.obs)]
         idx = [i for i, c in enumerate(self.cases) if c["obj"]["type"] == "poly" and self.tf[i]]
         checks = [check_term(self.cases[i], self.obs[i]) for i in idx]
+        # the sequence of trial points of the first iteration (both line searches) against the model
+        tidx = [i for i in idx if self.cases[i]["kw"]["maxiter"] >= 1 and not self.obs[i]["eager"]["raised"]
+                and not self.obs[i]["static"]["raised"] and all(math.isfinite(v) for t in self.obs[i]["log"]["trials"] for v in t[0])]
+        checks += [trials_term(self.cases[i], self.obs[i]) for i in tidx]
+        idx_all = idx + tidx
         bad = C.eval_cases(self.prop, "corr", HEADER, checks, shard=4, timeout=600)
         for b in bad[:4]:
-            i = idx[b]
+            i = idx_all[b]
             res.add_broken("correspondence", "_newton_cg/_static_newton_cg vs coq/C17/Model.v",
                            {"case": strip(self.cases[i]), "eager": self.obs[i]["eager"], "static": self.obs[i]["static"]})
         classes = set()
@@ -462,7 +614,9 @@ class C17(C.Check):
                     "maxiter 0..3, miniter 0/1, absdelta / xtol / energy_reduction_factor variations; only runs whose decisions are tie-free; "
                     "non-trivial = at least one iteration; distinct by (n, maxiter, absdelta?, miniter, status, nit, negative curvature met, number of energy evaluations)",
             "samples": [{"case": strip(self.cases[i]), "eager": self.obs[i]["eager"], "static": self.obs[i]["static"]} for i in idx[2:5]],
-            "input_distribution": dist, "disagreements": len(bad), "dropped_near_ties": len(self.cases) - len(idx) - sum(1 for c in self.cases if c["obj"]["type"] != "poly"),
+            "trial_sequence_checks": len(tidx), "illconditioned_highdim_cases": sum(1 for c in self.cases if c["obj"]["type"] == "illc"),
+            "illconditioned_tie_free": sum(1 for c, t in zip(self.cases, self.tf) if c["obj"]["type"] == "illc" and t),
+            "input_distribution": dist, "disagreements": len(bad), "dropped_near_ties": sum(1 for c, t in zip(self.cases, self.tf) if not t),
             "exhaustive": False,
         })
         return bad
